@@ -26,8 +26,16 @@ side, possibly a SIMD variant for arrays): 1 ulp each moves z by (|log10 L| + |l
 
 Explicit `lower_limit` / `upper_limit` (not part of the property text, but the repairs touch exactly their handling): the
 documented behaviour "only the load distribution between the limits is considered" = the overlap integral over the window
-(limits beyond 16 load standard deviations are moved there).  Since /repo 2da931b the code integrates the smaller one
-of the window's failure probability P and its complement Q within the window's load mass, so BOTH are demanded relatively:
+(limits beyond 16 load standard deviations are moved there).  Since /repo 2da931b the code can integrate the window's failure
+probability P directly or its complement Q within the window's load mass (result = mass - integral of pdf * sf_S).  The code's
+branch rule is that of /repo 9f34536: through the complement with the default limits and loc < 0, and otherwise only when
+the direct integral exceeds half of the window's load mass AND at least half of the whole load lies in the window; a
+window holding less than half of the load always returns the direct integral of P (in a narrow window mass - integral
+cancels: 2da931b alone returned -5.4e-24 for 4.1e-47, finding pf-narrow-window-complement - a label of the record only, a
+recurrence is reported as pf-window-cancellation; corpus fixreview-d-narrow-window-{a,b,c}, three windows narrower than 1e-9
+load sd, fire on a tree without 9f34536; the narrowest generated windows are about 1e-6 load sd wide and would not).  The Lean
+model keeps the rule of 2da931b (complement whenever the direct integral exceeds half the window's load mass); both rules
+choose between the same two expressions of the same window integral.  BOTH P and Q are demanded relatively:
 |got - P| <= 1e-6 P and |got - P| <= 1e-6 Q + rounding of the mass (a difference of two norm.cdf / norm.sf values: 64 ulp of
 the larger one, times 1 + x^2 in a tail at x) + rounding of the standardised limits (`limit_rounding`: log10 of the load median
 is good for an ulp, the limit is a difference divided by load_std).  Reference: the harness' own adaptive 20-point Gauss-Legendre integration of
@@ -466,9 +474,10 @@ class C15(Prop):
             "-> 0 sequence); arb (sampled log-normal density on a refinement sequence of two-scale grids and on random nodes); "
             "arbk (short arbitrary node lists, ascending and descending).  "
             "Correspondence: compiled Lean model at Float - closed form with its own Phi (series / continued fraction) AND the "
-            "code-level model pfNormLoadCode (standardised window; branch rule of /repo 2da931b: the direct integral of pdf * cdf_S, or - for "
+            "code-level model pfNormLoadCode (standardised window; the MODEL's branch rule is that of /repo 2da931b: the direct integral of pdf * cdf_S, or - for "
             "default limits with loc < 0, or when the direct integral exceeds half the window's load mass - the window's load mass minus the "
-            "integral of pdf * sf_S; load_std = 0 is the deterministic branch; quad := composite Gauss-Legendre) - vs real "
+            "integral of pdf * sf_S; the CODE's rule is that of /repo 9f34536: the complement in the second case only if at least half of the "
+            "whole load lies in the window - both are the same window integral; load_std = 0 is the deterministic branch; quad := composite Gauss-Legendre) - vs real "
             "code, relative on pf AND on 1-pf (module docstring).  Oracle (real code vs an independent erfc closed form and an "
             "independent Gauss-Legendre window integral): value, range [0,1], strict monotonicity in load / strength median, "
             "limit load_std -> 0 = pf_simple_load, convergence of pf_arbitrary_load and identity with the harness' own "
@@ -494,7 +503,15 @@ class C15(Prop):
         "raise on every version); pf_simple_load / pf_arbitrary_load arrays",
         "C15: the model describes the REPAIRED pf_norm_load (/repo commits 2a91979, 04bca38, 2da931b; "
         "branch rule of pfNormLoadCode: default limits and loc < 0, or direct integral above half the window's load mass -> through "
-        "the complement).  On a tree without 2da931b: strength_std/load_std < 1.6e-6 is wrong by up to 3e-5 relative (class "
+        "the complement).  The code's branch rule has been that of /repo 9f34536 since: in the second case the complement is used only if, "
+        "in addition, at least half of the whole load lies in the window (|load mass| >= 1/2), otherwise the direct integral is kept; the "
+        "model was left with the 2da931b rule on purpose - both rules choose between two expressions of the same window integral "
+        "(window_sf_identity); the theorems, stated for the model's rule, are not restated for the code's, and the correspondence "
+        "tolerance grants the rounding of the window's load mass, which covers a model value that went through the complement in a narrow window.  On a tree without 9f34536 an explicit window holding less than "
+        "half of the load whose pf exceeds half of its load mass returns mass - integral(sf), which cancels in a narrow window "
+        "(finding pf-narrow-window-complement, a label of the record only: the oracle reports it as pf-window-cancellation; witnesses "
+        "corpus fixreview-d-narrow-window-a/b/c, windows narrower than 1e-9 load sd - the narrowest generated windows are about 1e-6 load sd wide).  "
+        "On a tree without 2da931b: strength_std/load_std < 1.6e-6 is wrong by up to 3e-5 relative (class "
         "pf-breakpoint-dropped), explicit windows with the load median above the strength median lose all relative accuracy and "
         "can come out negative (pf-window-cancellation), the result is an np.float64 on the loc < 0 path (pf-return-type); without "
         "04bca38 a break point candidate within a few ulp of +-16 gives 1-10 % error (pf-breakpoint-at-limit)",
@@ -760,8 +777,9 @@ class C15(Prop):
             if k == "arbk":
                 d = self._cmp_arb(a, b)
             elif k == "norm" and i == 1:
-                # the code-level model (window, branch rule of 2da931b: direct integral or load mass minus the sf integral,
-                # Gauss-Legendre): same tolerance, complement from the closed form
+                # the code-level model (window, the model's branch rule = that of 2da931b: direct integral or load mass minus the sf
+                # integral, Gauss-Legendre; the code follows the rule of 9f34536, same window integral): same tolerance, complement
+                # from the closed form
                 q = model_out[0].split()[1]
                 d = self._cmp_pf(f"{a} {q}", b, 1e-8, "code-level model pfNormLoadCode: ")
             elif k in ("limits", "rtype"):
